@@ -1120,13 +1120,23 @@ fn check_purge(h: &CaseH, c: &(Plan, u8, bool)) -> Verdict {
     if m.spaces.len() > 1 {
         let first = m.spaces[0].id;
         let orphan: Vec<Uuid> = m.spaces.iter().enumerate().skip(1).filter(|(i, _)| c.1 & (1 << (i % 8)) != 0).map(|(_, s)| s.id).collect();
-        for w in &mut m.walls {
+        let mut only_by_next_to = false;
+        for (wi, w) in m.walls.iter_mut().enumerate() {
             if orphan.contains(&w.space) {
                 w.space = first;
             }
             if w.next_to.map_or(false, |n| orphan.contains(&n)) {
-                w.next_to = None;
+                // every other such reference is kept: the orphaned space is then referred to only as the
+                // adjacent space of somebody else's wall and must survive
+                if wi % 2 == 0 || c.1 & 0x80 != 0 {
+                    w.next_to = None;
+                } else {
+                    only_by_next_to = true;
+                }
             }
+        }
+        if only_by_next_to {
+            h.class("space-referenced-only-by-next_to");
         }
         if !orphan.is_empty() {
             h.class("orphaned-space");
@@ -1148,7 +1158,7 @@ pub fn run_c16(args: &Args) -> ! {
         check_purge_model(h, m, true)
     });
     ctx.run_prop("generated", ctx.tier().pick(20_000, 600_000), purge_case, check_purge);
-    for c in ["generated/orphaned-space", "generated/removed/spaces", "generated/removed/thermal_bridges", "generated/removed/wallcons", "generated/removed/wincons", "generated/removed/materials", "generated/removed/glasses", "generated/removed/frames", "generated/removed/loads", "generated/removed/thermostats", "generated/removed/year", "generated/removed/week", "generated/removed/day", "generated/with-indicators"] {
+    for c in ["generated/orphaned-space", "generated/space-referenced-only-by-next_to", "generated/removed/spaces", "generated/removed/thermal_bridges", "generated/removed/wallcons", "generated/removed/wincons", "generated/removed/materials", "generated/removed/glasses", "generated/removed/frames", "generated/removed/loads", "generated/removed/thermostats", "generated/removed/year", "generated/removed/week", "generated/removed/day", "generated/with-indicators"] {
         ctx.require_class(c);
     }
     ctx.finish()
